@@ -118,6 +118,24 @@ def value_job(job):
             ref_data = vals.astype(d_core)
     for mask in masks:
         x = np.ma.masked_array(vals, mask=mask) if mask is not None else vals
+        if src != dst and len(vals) >= 3 and s_core != "utf8":
+            # the cast result is a new array: writing into the source (or the result) afterwards must not show in the other
+            from .. import progs
+            for direction in ("source-written", "result-written"):
+                try:
+                    a = ndx.asarray(x.copy())
+                    b = ndx.astype(a, impl.dt(dst))
+                    tgt, other = (a, b) if direction == "source-written" else (b, a)
+                    before = other.to_numpy()
+                    i = 1 if mask is None or not mask.any() or mask.all() else int(np.argmax(mask))   # a null slot if there is one
+                    j = 0 if mask is None or not mask.any() or mask.all() else int(np.argmin(mask))
+                    tgt[i] = tgt[j]
+                    after = other.to_numpy()
+                except Exception:
+                    continue
+                if before is None or after is None or not progs.same_value(before, after):
+                    rec["fail"].append(("eager", f"cast-result-shares-storage-with-source/{direction}",
+                                        f"{impl.canon(before)} became {impl.canon(after)}"[:300]))
         res = sweep.run_case(lambda a: ndx.astype(a, impl.dt(dst)), [x], [src])
         for mode, got in res.items():
             if sweep.is_error(got):
